@@ -1,4 +1,4 @@
-\* thorough: in-memory map, asynchronous writer, refill unit 2 blocks, 13 ranges, 1 eviction, 1 fault
+\* thorough: in-memory map, asynchronous writer, refill unit 2 blocks, 9 ranges, 1 eviction, 1 fault
 SPECIFICATION Spec
 CONSTANTS
   NF = 1
@@ -8,7 +8,7 @@ CONSTANTS
   Readers = {r1, r2}
   r1 = r1
   r2 = r2
-  ReadSet <- RS_t2
+  ReadSet <- RS_t
   NReads = 1
   MaxEv = 1
   Async = TRUE
